@@ -330,7 +330,14 @@ func dirtyEl() banderwagon.Element { return reprOf(conf().SRS[177], reprProjFlip
 // callLimit: generous wall-clock limit for ONE call of the implementation that normally takes milliseconds
 // to about a second; a call still running after it is reported as "does not return" (the goroutine is
 // abandoned and the enumeration continues, so a hang costs minutes instead of the whole unit limit).
-const callLimit = 5 * time.Minute
+var callLimit = 5 * time.Minute
+
+// SetTier adapts wall-clock limits to the tier (called once by the command before any unit runs).
+func SetTier(tier string) {
+	if tier != "thorough" {
+		callLimit = 3 * time.Minute
+	}
+}
 
 // hangs counts calls that hit the limit in this worker; after two of them the remaining timed calls of the
 // process are skipped (the property is already violated and every further hang would cost minutes).
